@@ -29,7 +29,7 @@ echo "$label: suite[$t] demo_with_patch_rc=$with demo_without_rc=$without"
 git apply $SCRATCH/$label.patch || exit 3
 rsync -a --delete --exclude target --exclude .git --exclude replays --exclude evidence /verif/ $SCRATCH/verif/
 mkdir -p $SCRATCH/verif/evidence $SCRATCH/verif/replays
-sed -i "s#path = \"/repo\"#path = \"$wt\"#" $SCRATCH/verif/sim/Cargo.toml
+sed -i "s#path = \"/repo\"#path = \"$wt\"#" $SCRATCH/verif/sim/Cargo.toml $SCRATCH/verif/threads/Cargo.toml
 for p in $props; do
   s=$(date +%s)
   ( cd $SCRATCH/verif && ./check $p $tier ) > $SCRATCH/${label}_$p.log 2>&1; rc=$?
